@@ -39,7 +39,7 @@ impl<'a> Adapter<'a> for Counting {
     }
 }
 
-// @grid c03_grid_lazy_starting_vertices tier=quick bound="921 family queries (single edges and sibling pairs x scopes x filters) over starting vertices 0..6; every prefix of the result stream"
+// @grid c03_grid_lazy_starting_vertices tier=quick bound="[+ seeded random accepted documents, VERIF_SEED] 921 family queries (single edges and sibling pairs x scopes x filters) over starting vertices 0..6; every prefix of the result stream"
 // @ob nothing is pulled before the first row is requested, and when the k-th row is produced only the starting vertices up to the one that contributes it have been pulled (so dropping the iterator early causes no further access)
 pub(crate) fn c03_grid_lazy_starting_vertices() {
     let mut n = 0u64;
@@ -66,12 +66,12 @@ pub(crate) fn c03_grid_lazy_starting_vertices() {
 }
 
 
-// @grid c03_grid_lazy_starting_vertices_corpus tier=quick bound="every numbers query of the corpus (repository valid queries + extra shapes) with at most 40 starting vertices and 2000 rows; every prefix of the result stream; rows are attributed to starting vertices by re-running the query on the dataset restricted to one starting vertex at a time"
+// @grid c03_grid_lazy_starting_vertices_corpus tier=quick bound="[+ seeded random accepted documents, VERIF_SEED] every numbers query of the corpus (repository valid queries + extra shapes) with at most 40 starting vertices and 2000 rows; every prefix of the result stream; rows are attributed to starting vertices by re-running the query on the dataset restricted to one starting vertex at a time"
 // @ob nothing is pulled before the first row is requested, and when the k-th row is produced only the starting vertices up to the one that contributes it have been pulled
 pub(crate) fn c03_grid_lazy_starting_vertices_corpus() {
     let mut n = 0u64;
     let mut failures = BTreeSet::new();
-    for case in corpus() {
+    for case in crate::verif_corpus::corpus_with_random(150, 3) {
         if case.schema_name != "numbers" { continue; }
         let Ok(iq) = crate::frontend::parse(NumbersAdapter::new().schema(), &case.query) else { continue; };
         let args = Arc::new(case.arguments.clone());
